@@ -40,9 +40,9 @@ var tkNames = []string{"Bool", "Long", "String", "entity", "Set", "record", "dec
 
 type c15Type struct {
 	K     tk
-	Ent   string  // tEntity
-	Elem  *c15Type  // tSet
-	Attrs []sAttr // tRecord, sorted by name
+	Ent   string   // tEntity
+	Elem  *c15Type // tSet
+	Attrs []sAttr  // tRecord, sorted by name
 }
 
 type sAttr struct {
@@ -75,7 +75,7 @@ type c15Schema struct {
 
 func scalarT(k tk) *c15Type     { return &c15Type{K: k} }
 func entT(name string) *c15Type { return &c15Type{K: tEntity, Ent: name} }
-func setT(e *c15Type) *c15Type    { return &c15Type{K: tSet, Elem: e} }
+func setT(e *c15Type) *c15Type  { return &c15Type{K: tSet, Elem: e} }
 func recT(a ...sAttr) *c15Type  { return &c15Type{K: tRecord, Attrs: sortAttrs(a)} }
 func sortAttrs(a []sAttr) []sAttr {
 	sort.Slice(a, func(i, j int) bool { return a[i].Name < a[j].Name })
@@ -1112,6 +1112,105 @@ func (g *xg) lubAccess(d int, c caps) *model.Expr {
 	return g.predOn(model.Access(e, a1.Name), a1.T, d, c)
 }
 
+// unionExpr builds an entity-valued if-expression whose branches have 2-3 different entity
+// types (a permissive-mode union), in random type order.
+func (g *xg) unionExpr() *model.Expr {
+	r := g.r
+	perm := r.Perm(len(g.ents))
+	one := func(i int) *model.Expr {
+		t := g.ents[perm[i%len(perm)]]
+		if r.P(0.3) {
+			for _, v := range []string{"principal", "resource"} {
+				if (v == "principal" && g.env.P == t) || (v == "resource" && g.env.R == t) {
+					return model.Var(v)
+				}
+			}
+		}
+		return g.gen(1, entT(t), caps{})
+	}
+	e := model.If(g.genBool(1, caps{}), one(0), one(1))
+	if len(perm) > 2 && r.P(0.35) {
+		e = model.If(g.genBool(1, caps{}), e, one(2))
+		if r.Bool() {
+			e.Args[1], e.Args[2] = e.Args[2], e.Args[1]
+		}
+	}
+	return e
+}
+
+// guardShape wraps the guard gb into a random boolean combination (depth <= 2) with other
+// dynamic booleans and with operands the validator may type True / False: whether the
+// guard's capability survives is the validator's decision, the run-time outcome judges it.
+func (g *xg) guardShape(gb *model.Expr, depth int) *model.Expr {
+	r := g.r
+	atom := func() *model.Expr {
+		switch r.Intn(6) {
+		case 0, 1:
+			return c15Clone(gb)
+		case 2:
+			return g.genBool(1, caps{})
+		case 3:
+			return model.Un(model.ONot, g.foldable(1))
+		}
+		return g.foldable(1)
+	}
+	var build func(d int) *model.Expr
+	build = func(d int) *model.Expr {
+		if d <= 0 {
+			return atom()
+		}
+		switch r.Intn(8) {
+		case 0, 1, 2:
+			return model.Bin(model.OAnd, build(d-1), build(d-1))
+		case 3, 4, 5:
+			return model.Bin(model.OOr, build(d-1), build(d-1))
+		case 6:
+			return model.Un(model.ONot, build(d-1))
+		}
+		return model.If(build(d-1), build(d-1), build(d-1))
+	}
+	for try := 0; try < 8; try++ {
+		e := build(depth)
+		found := false
+		e.Walk(func(x *model.Expr) {
+			if x.Op == gb.Op && x.S == gb.S && len(x.Args) > 0 && len(x.Args) == len(gb.Args) {
+				found = true
+			}
+		})
+		if found {
+			return e
+		}
+	}
+	return model.Bin(model.OAnd, c15Clone(gb), g.foldable(1))
+}
+
+// guardAndUse picks an optional step (or a tag) and returns its guard and a boolean that
+// reads the guarded thing as if the guard held.
+func (g *xg) guardAndUse() (guard, use *model.Expr) {
+	r := g.r
+	if gs := g.guardable(caps{}); len(gs) > 0 && r.P(0.7) {
+		pk := mon.Pick(r, gs)
+		p := g.paths[pk[0]]
+		guard = model.Has(p.prefixExpr(pk[1]), p.steps[pk[1]].attr)
+		return guard, g.predOn(p.expr(), p.t, 1, caps{}.with(capHas(p.prefixKey(pk[1]), p.steps[pk[1]].attr)))
+	}
+	var cand []xpath
+	for _, p := range g.paths {
+		if p.t.K == tEntity && g.usable(p, caps{}) {
+			if e := g.sc.ent(p.t.Ent); e != nil && e.Tags != nil {
+				cand = append(cand, p)
+			}
+		}
+	}
+	if len(cand) == 0 {
+		return nil, nil
+	}
+	p := mon.Pick(r, cand)
+	tag := model.Lit(model.Str(mon.Pick(r, c15TagKeys)))
+	guard = model.Bin(model.OHasTag, p.expr(), tag)
+	return guard, g.predOn(model.Bin(model.OGetTag, p.expr(), c15Clone(tag)), g.sc.ent(p.t.Ent).Tags, 1, caps{})
+}
+
 // useOf builds a boolean that reads the (now guarded) path p or something below it.
 func (g *xg) useOf(p xpath, d int, c caps) *model.Expr {
 	if g.r.P(0.3) {
@@ -1262,8 +1361,11 @@ func (g *xg) foldable(d int) *model.Expr {
 	r := g.r
 	v := func() *model.Expr { return model.Var(mon.Pick(r, []string{"principal", "resource"})) }
 	anyEnt := func() *model.Expr {
-		if r.P(0.5) {
+		switch x := r.Intn(10); {
+		case x < 4:
 			return v()
+		case x < 7:
+			return g.unionExpr()
 		}
 		return g.gen(1, entT(mon.Pick(r, g.ents)), caps{})
 	}
@@ -1500,17 +1602,56 @@ func (g *xg) policy(depth int) *c15policy {
 		pol.Conds = append(pol.Conds, model.Cond{When: r.P(0.75), Body: g.genBool(1+r.Intn(depth), caps{})})
 	}
 	switch x := r.Intn(100); {
-	case x < 40:
-	case x < 75:
+	case x < 35:
+	case x < 65:
 		c := &pol.Conds[r.Intn(len(pol.Conds))]
 		if m := g.mutate(c.Body); m != "" {
 			out.kind = "mutant:" + m
 		}
-	default:
+	case x < 85:
 		c := &pol.Conds[r.Intn(len(pol.Conds))]
 		var k string
 		c.Body, k = g.probe(1 + r.Intn(2))
 		out.kind = "probe:" + k
+	case x < 93:
+		// a guard buried in a boolean combination with static operands, then the guarded use
+		if guard, use := g.guardAndUse(); guard != nil {
+			x := g.guardShape(guard, 1+r.Intn(2))
+			c := &pol.Conds[r.Intn(len(pol.Conds))]
+			switch r.Intn(4) {
+			case 0:
+				c.Body = model.If(x, use, g.genBool(1, caps{}))
+			case 1:
+				c.Body = model.Bin(model.OAnd, model.Bin(model.OAnd, x, g.genBool(1, caps{})), use)
+			default:
+				c.Body = model.Bin(model.OAnd, x, use)
+			}
+			out.kind = "guardshape:" + x.Op.String()
+		}
+	default:
+		// guard and guarded use in different when/unless clauses, in either order
+		if guard, use := g.guardAndUse(); guard != nil {
+			gc := guard
+			switch r.Intn(5) {
+			case 0:
+				gc = model.Un(model.ONot, guard)
+			case 1:
+				gc = model.Bin(model.OAnd, guard, g.genBool(1, caps{}))
+			case 2:
+				gc = model.Bin(model.OOr, guard, g.genBool(1, caps{}))
+			}
+			cl := []model.Cond{{When: r.Bool(), Body: gc}, {When: r.Bool(), Body: use}}
+			if r.P(0.3) {
+				cl[0], cl[1] = cl[1], cl[0]
+			}
+			if r.P(0.4) {
+				extra := model.Cond{When: r.Bool(), Body: g.genBool(1, caps{})}
+				k := r.Intn(3)
+				cl = append(cl[:k:k], append([]model.Cond{extra}, cl[k:]...)...)
+			}
+			pol.Conds = cl
+			out.kind = "clauses:" + fmt.Sprintf("%d", len(cl))
+		}
 	}
 	out.pol = pol
 	return out
